@@ -51,7 +51,8 @@ RULE = (
     "ignores: programs = header (a line-1 diagnostic / leading comment block / docstring / nothing) + 1-3 functions and "
     "an optional class whose bodies are drawn from ~40 statement templates (one diagnostic per line; several of one code "
     "per line; two codes on one line; diagnostics on continuation lines inside brackets, after a backslash, inside a "
-    "triple-quoted f-string; after decorators; tab indentation; nested blocks; a form feed) + tail (diagnostic on the "
+    "triple-quoted f-string; after decorators; tab indentation; nested blocks; a form feed or \\x1e above the diagnostic — "
+    "regression for the repaired splitlinesMismatch) + tail (diagnostic on the "
     "last line, with and without final newline); every program imports cleanly and has diagnostics. First every "
     "template alone under every header, then seeded random combinations. A comment is 'added for' the (code, line) of "
     "the first reported failure of its round (all diagnostics of that code on that line). fixes: functions t<k>(a, b, c) "
@@ -71,7 +72,7 @@ ASSUMPTIONS = [
     "diagnostics carry a code and a position and obey ignore comments (all diagnostics of the visitor do); unused_ignore / "
     "bare_ignore (off by default, emitted with obey_ignore=False) are off in every stream",
     "the text of a real fix (ast_decompiler.decompile) is taken from the implementation; only its placement is modelled",
-    "files end with a newline when they contain one of the extra splitlines separators",
+    "sources contain no carriage return (files are read with universal newlines, so none reaches pyanalyze)",
 ]
 TRUSTED = [
     "CPython ast / tokenize / exec as oracle for 'parses', 'same tree', 'same behaviour'; the position arithmetic of the "
@@ -569,6 +570,12 @@ F_RANGE = [
     ("unused-bracket-col0", ["x = [1,", "2]", "return a"]),
     ("unused-then-closer", ["y = [", "    a,", "    max(", "        1, 2", "    ),", "]", "return y"]),
 ]
+# what is left of the range heuristic after d5dca9e: the line *after* the statement taken for part of it
+F_OVERRUN = [
+    ("unused-then-triple-stmt", ["x = \"\"\"a\"\"\"", "\"\"\"", "note", "\"\"\"", "return a"]),
+    ("fstr-then-triple-stmt", ["x = \"\"\"%s\"\"\" % a", "\"\"\"", "note", "\"\"\"", "return x"]),
+    ("unused-then-deeper-comment", ["x = 1", "    # a comment indented deeper", "return a"]),
+]
 F_SHARED = [
     ("unused-semi", ["x = 1; y = 2", "return y"]),
     ("unused-semi-2", ["y = 2; x = 1", "return y"]),
@@ -601,7 +608,7 @@ def build_fix_program(bodies, header=(), tail=()):
 def gen_fix_programs(ctx):
     rng = ctx.rng
     progs = []
-    allf = F_OK + F_EMPTY + F_RANGE + F_SHARED + F_ELIF + F_PCT
+    allf = F_OK + F_EMPTY + F_RANGE + F_OVERRUN + F_SHARED + F_ELIF + F_PCT
     for name, b in allf:
         progs.append(("single:" + name, build_fix_program([b])))
     # first line / last line of the file
@@ -616,13 +623,13 @@ def gen_fix_programs(ctx):
 
 # ------------------------------------------------------------------ ignores stream
 KIND_CLASSES = {
-    "parse": ["afterBackslash", "splitlinesMismatch"],
-    "ast": ["insideString", "splitlinesMismatch"],
-    "oversuppressed": ["ignoreAboveLineOne", "splitlinesMismatch"],
-    "reappeared": ["twoCodesOneLine", "splitlinesMismatch"],
-    "nofix": ["twoCodesOneLine", "splitlinesMismatch"],
-    "removal": ["ignoreAboveLineOne", "twoCodesOneLine", "splitlinesMismatch"],
-    "wrongtext": ["splitlinesMismatch"],
+    "parse": ["afterBackslash"],
+    "ast": ["insideString"],
+    "oversuppressed": ["ignoreAboveLineOne"],
+    "reappeared": ["twoCodesOneLine"],
+    "nofix": ["twoCodesOneLine"],
+    "removal": ["ignoreAboveLineOne", "twoCodesOneLine"],
+    "wrongtext": [],      # was splitlinesMismatch, repaired by ba62f49: a malformed change is a new violation
 }
 
 
@@ -742,12 +749,7 @@ def ignores_cases(ctx, items, with_model, limit=150):
                 if got_all != mr[:len(got_all)]:
                     conforms = False
                     k = next(i for i, g in enumerate(got_all) if i >= len(mr) or g != mr[i])
-                    if "splitlinesMismatch" in cls_list and got_all == sr[:len(got_all)]:
-                        # inside an exception class the implementation may also do what the spec says (repaired);
-                        # the spec round shares every other behaviour with the model
-                        ctx.tag("repaired_in_class_splitlinesMismatch")
-                        conforms = repaired = True
-                    elif k > 0 and cls_list and any(p[0] in ("parse", "ast") for p in r["problems"]):
+                    if k > 0 and cls_list and any(p[0] in ("parse", "ast") for p in r["problems"]):
                         # past the first broken round of a known-defect input the renumbering assumption no longer applies
                         pass
                     else:
@@ -766,7 +768,7 @@ def ignores_cases(ctx, items, with_model, limit=150):
                         ctx.disagree("spec-final", case, "status %s, final hash %d" % (r["status"], hash_lines(file_lines(r["final"]))),
                                      "specFinal hash " + mo["spec"])
                 # spec-lex: the lexer's verdict on every line vs CPython
-                if "splitlinesMismatch" not in cls_list:
+                if True:
                     safe = safe_insert_points(it["src"])
                     for p, (ok, letter) in enumerate(zip(safe, mo["lex"]), 1):
                         ctx.corr("spec-lex")
@@ -875,10 +877,10 @@ def fix_case(ctx, case, lines, with_model, cap):
 
 
 FIX_KIND_CLASSES = {
-    "parse": ["emptyBlock", "stmtRange", "sharedLine"],
-    "locality": ["stmtRange", "sharedLine", "elifHeader", "emptyBlock"],
-    "behaviour": ["stmtRange", "sharedLine", "elifHeader", "fstringConversion"],
-    "still": ["stmtRange"],
+    "parse": ["emptyBlock", "stmtRangeOverrun", "sharedLine"],
+    "locality": ["stmtRangeOverrun", "sharedLine", "elifHeader", "emptyBlock"],
+    "behaviour": ["stmtRangeOverrun", "sharedLine", "elifHeader", "fstringConversion"],
+    "still": [],
 }
 
 
@@ -906,8 +908,8 @@ def flush_fixes(ctx, pending, with_model):
             got = ",".join(map(str, p[4]))
             if mo.get("range") != got:
                 conform[key] = False
-                if mo.get("D") == "stmtRange" and got == mo.get("spec"):
-                    ctx.tag("repaired_in_class_stmtRange")
+                if mo.get("D") == "stmtRangeOverrun" and got == mo.get("spec"):
+                    ctx.tag("repaired_in_class_stmtRangeOverrun")
                 else:
                     ctx.disagree("range", dict(case, round=k), "get_line_range_for_node: " + got, "lineRange: " + str(mo.get("range")))
     for p, mo in zip(pending, outs):
@@ -1008,10 +1010,9 @@ def run_range(ctx, programs, with_model):
     for lines in programs:
         src = "\n".join(lines) + "\n"
         tree = try_parse(src)
-        if tree is None or len(src.splitlines()) != len(lines):
-            continue          # line tables that disagree with the AST (form feed …) make no sense here
-        pl = [l + "\n" for l in src.splitlines()]
-        lines = src.splitlines()
+        if tree is None:
+            continue
+        pl = [l + "\n" for l in lines]      # what `_lines()` hands to get_line_range_for_node
         for n in ast.walk(tree):
             if isinstance(n, ast.stmt):
                 try:
@@ -1032,18 +1033,18 @@ def run_range(ctx, programs, with_model):
         if model is not None:
             ctx.corr("range")
             m = model[i].get("range", model[i].get("raw"))
-            d = model[i].get("D") == "stmtRange"
+            d = model[i].get("D") == "stmtRangeOverrun"
             if m != got:
                 if d and got == model[i].get("spec"):
-                    ctx.tag("repaired_in_class_stmtRange")
+                    ctx.tag("repaired_in_class_stmtRangeOverrun")
                 else:
                     ctx.disagree("range", {"program": l, "first": a, "astLast": b}, got, str(m))
             if d:
-                ctx.tag("range_class_stmtRange")
+                ctx.tag("range_class_stmtRangeOverrun")
             # the class predicate is exactly "model differs from lineno..end_lineno" (theorem line_range_exact_partial + witnesses)
             if "range" in model[i] and (model[i]["range"] != model[i]["spec"]) != d:
                 ctx.disagree("model-vs-spec", {"program": l, "first": a, "end": c}, "lineRange %s vs specRange %s" % (model[i]["range"], model[i]["spec"]),
-                             "D16_stmtRange = %s" % d)
+                             "D16_stmtRangeOverrun = %s" % d)
 
 
 # ------------------------------------------------------------------ cli stream (the real main loop)
